@@ -41,6 +41,7 @@ type Op struct {
 	Raw   []byte `json:"raw,omitempty"` // parameter component (form garbage)
 	Lp    bool   `json:"lp,omitempty"`  // sent inside an LpPacket carrying a PIT token
 	Fresh bool   `json:"mbf,omitempty"` // MustBeFresh on a command Interest
+	Hint  string `json:"hint,omitempty"` // a forwarding hint (one delegation) carried by the Interest
 	Probe int    `json:"probe,omitempty"`
 
 	// set by the executor, not part of the case: the parameter component starts with a
@@ -497,6 +498,12 @@ func (g *genState) genOp() Op {
 	case "nonlocal":
 		op.Pfx = pfxLocal
 		op.Face = pick(t, "face", []int{2, 2, 4})
+		// a remote sender may add a forwarding hint that points towards the management face
+		// (/localhop/nfd is routed there when link-local management is on): the command is named
+		// under /localhost all the same and must have no effect (seeded C17-r5-2)
+		if pct(t, "nlhint", 40) {
+			op.Hint = pick(t, "nlhintname", []string{pfxLocalhop, pfxLocalhop, pfxLocal, "/r"})
+		}
 	default:
 		op.Pfx = pick(t, "pfx", otherPrefixes)
 		if len(g.intRoutes) > 0 && pct(t, "routedpfx", 75) {
@@ -509,6 +516,9 @@ func (g *genState) genOp() Op {
 	}
 	op.Lp = pct(t, "lp", 20)
 	op.Fresh = pct(t, "mbf", 20)
+	if arr == "auth" && pct(t, "lhint", 6) {
+		op.Hint = pfxLocal // a hint that leads where the name leads anyway
+	}
 	return op
 }
 
